@@ -200,3 +200,36 @@ def run(chk, prog):
                 chk.decide(RE, chk.key(RE, 'push', '#%d' % i), bool(ok), 'preceded by a clear on every path',
                            'push_evaluation_stack adds to the origins of a list value without emptying them first: origins '
                            'accumulate along the value\'s history instead of being a function of its items', g_.loc(bb))
+
+    # ---- list + int / list - int steps every item inside its own list
+    RF = 'C07.item-stepped-in-its-own-list'
+    chk.rule(RF, 'In call_list_increment_operation the list definition in which an item is stepped (the receiver of '
+             'ListDefinition::get_item_with_value) is selected by a predicate that compares the definition\'s name with that '
+             'item\'s own origin name; taking whichever origin has an item with the new number mixes up lists whose values '
+             'overlap.')
+    inc = prog.fn('NativeFunctionCall::call_list_increment_operation')
+    if chk.anchor(RF, 'NativeFunctionCall::call_list_increment_operation', inc):
+        lt = Tracer(prog, transparent=lambda cs: True, use_summaries=False)
+        cmp_ok = False
+        for g_ in prog.with_closures(inc):
+            for bb, t in g_.calls():
+                if callee_short(t).endswith('::eq') and len(t['args']) >= 2:
+                    pa, pb = lt.prov(g_, t['args'][0]), lt.prov(g_, t['args'][1])
+                    for x, y in ((pa, pb), (pb, pa)):
+                        if 'via:ListDefinition::get_name' in x and 'via:InkListItem::get_origin_name' in y:
+                            cmp_ok = True
+        sites_ = []
+        for g_ in prog.with_closures(inc):
+            for bb, t in g_.calls():
+                if callee_short(t) == 'ListDefinition::get_item_with_value':
+                    rp = lt.prov(g_, t['args'][0])
+                    selected = any(a.startswith('via:') and a.rsplit('::', 1)[-1] in ('find', 'position', 'filter')
+                                   for a in rp) or 'via:ListDefinitionsOrigin::get_list_definition' in rp
+                    sites_.append((g_, bb, selected))
+        if chk.anchor(RF, 'get_item_with_value in call_list_increment_operation', sites_):
+            for i, (g_, bb, selected) in enumerate(sites_):
+                chk.decide(RF, chk.key(RF, 'lookup', '#%d' % i), selected and cmp_ok,
+                           'the definition is the one whose name equals the item\'s origin name',
+                           'call_list_increment_operation steps an item in a list definition that is not selected by the '
+                           'item\'s own origin name (selected by predicate: %s; name comparison present: %s)'
+                           % (selected, cmp_ok), g_.loc(bb))
